@@ -129,7 +129,11 @@ def setter_rules(F, D, res, adts):
                             va = atoms_of_value(val)
                             from_args = bool(va) and va <= arg_atoms | {a for a in va if a[0] in ("base",) and a in arg_atoms}
                             kind = old.kind
-                            if kind == "vec":
+                            if how == "remove":
+                                good, what = from_args, "removes the key given as argument (idempotent)"
+                            elif how == "clear":
+                                good, what = True, "is emptied"
+                            elif kind == "vec":
                                 good = how == "push" and from_args
                                 what = "appends exactly the argument (insertion order preserved)"
                             elif kind == "set":
